@@ -152,7 +152,8 @@ CLASSES = ['try_value', 'try_back', 'kwargs_support', 'cache_func', 'loops', 'pd
 
 def deco_params(rng, cls):
     if cls == 'try_value':
-        return dict(repeat=0, sleep=0, return_value=True, value=rng.choice([None, 0, 'fallback', -1]), verbose=None)
+        return dict(repeat=rng.choice([0, 0, 1, 2]), sleep=0, return_value=rng.choice([True, True, True, False]),
+                    value=rng.choice([None, 0, 'fallback', -1]), verbose=None)
     if cls == 'loops':
         return dict(types=rng.choice([['list'], ['list', 'tuple'], ['dict', 'list']]))
     if cls == 'pd2np':
